@@ -504,7 +504,7 @@ Qed.
 
 Lemma safe_char_disk : forall c, safe_char c = true -> c <> SLASH /\ disk_safe c = true.
 Proof.
-  intros c H. apply safe_char_facts in H as (_ & _ & H3 & _ & H5 & H6). split; [exact H3|].
+  intros c H. apply safe_char_facts in H as (_ & _ & H3 & _ & H5 & H6 & _). split; [exact H3|].
   unfold disk_safe. apply N.ltb_lt in H5. rewrite H5, H6. apply orb_true_r.
 Qed.
 
